@@ -65,7 +65,7 @@ META = {
               "C09, C14 (file clock) -- identical on both sides"],
     "assumptions": ["an abstract request has one value per header name (a WSGI environ cannot express repeated headers)",
                     "header values are Latin-1; request-view attributes that go through stdlib URL/query/JSON parsers use concrete recipes"],
-    "bounds": {"quick": {"text_chars": 2, "path_chars": 4}, "thorough": {"text_chars": 3, "path_chars": 6}},
+    "bounds": {"quick": {"text_chars": 3, "path_chars": 6}, "thorough": {"text_chars": 3, "path_chars": 7}},
     "outside": ["request bodies / forms / uploads (C01, C10, C15 run both stacks against one oracle each)", "longer texts"],
     "expect_kinds": {"all": ["equal"]},
 }
@@ -750,7 +750,7 @@ def jobs(tier: str):
                                 if_range=ifk, weight=9 ** (len(forms) if forms else 0)))
     for raw in ("", "bytes=", "items=0-1", "bytes=abc", "bytes=0-0,", " bytes=0-1"):
         out.append(dict(name=f"file/GET/raw:{raw!r}", family="file", recipe="file", raw_range=raw, method="GET"))
-    for n in range(0, (4 if tier == "quick" else 6) + 1):
+    for n in range(0, (6 if tier == "quick" else 7) + 1):
         out.append(dict(name=f"file/GET/range-text{n}", family="file", recipe="file", range_chars=n, method="GET", weight=4 ** n))
     out.append(dict(name="file/GET/octet", family="file", recipe="file", forms=["ab"], method="GET", ctype="application/octet-stream"))
     for name in HEADER_NAMES:
